@@ -950,7 +950,7 @@ fn main() {
             "a transaction whose duplicated Prepare and duplicated Commit are both delivered is applied twice on that shard; the model follows the participant's reported applications in order (counted, not a violation of this property)",
             "liveness is not asserted: lost messages may leave transactions undecided or participants prepared; only 'decided and nothing lost' end states are checked",
         ],
-        parts: vec![PropPart::new("sim", 40_000, 1_500_000, gen::case_strategy, run_case).shrink_iters(4000).boxed()],
+        parts: vec![PropPart::new("sim", 50_000, 1_500_000, gen::case_strategy, run_case).shrink_iters(4000).boxed()],
         children: vec![],
     });
 }
